@@ -581,7 +581,11 @@ fn gen_read4(rng: &mut Rng, st: &mut Stats, cw: &mut CaseWriter) {
             deltas.push(if rng.chance(3, 4) { 0 } else { *rng.pick(&[1i16, -1, 7, -32768]) });
             // offsets around the exact value, some pointing before/after the array, odd values
             let exact = ((n - i) * 2) as i64 + rng.range(0, 6) * 2;
-            let ro = if rng.chance(3, 4) { exact } else { rng.range(1, 60) };
+            let ro = match rng.below(8) {
+                0 => rng.range(1, 60),
+                1 => *rng.pick(&[2i64, 3, 100, 4000, 65534, 65535]), // far outside / before the glyph array, odd
+                _ => exact,
+            };
             roffs.push(ro.clamp(1, 65535) as u16);
         }
     }
@@ -591,7 +595,7 @@ fn gen_read4(rng: &mut Rng, st: &mut Stats, cw: &mut CaseWriter) {
         deltas.push(1);
         roffs.push(0);
     }
-    let ng = rng.below(40) as usize;
+    let ng = if rng.chance(1, 8) { 0 } else { rng.below(40) as usize };
     let gida: Vec<u16> = (0..ng).map(|_| if rng.chance(1, 6) { 0 } else { rng.below(500) as u16 + if rng.chance(1, 10) { 65000 } else { 0 } }).collect();
     let w = wcmap::Cmap4::new(0, endc, startc, deltas, roffs, gida);
     let Ok(Ok(bytes)) = catch(move || dump_table(&w)) else {
@@ -626,7 +630,15 @@ fn gen_read4(rng: &mut Rng, st: &mut Stats, cw: &mut CaseWriter) {
             report(st, json!({"key": format!("cmap4-reader-panic:{:016x}", fnv(&bytes)), "c": c}));
         }
     }
-    let iter: Vec<(u32, u32)> = catch(|| c4.iter().map(|(c, g)| (c, g.to_u32())).collect()).unwrap_or_default();
+    let iter_r: Result<Vec<(u32, u32)>, String> = catch(|| c4.iter().map(|(c, g)| (c, g.to_u32())).collect());
+    if iter_r.is_err() {
+        report(st, json!({"key": format!("cmap4-iter-panic:{:016x}", fnv(&bytes)), "panic": format!("{:?}", iter_r)}));
+    }
+    let iter = iter_r.unwrap_or_default();
+    // every table, malformed or not: strictly ascending code points (no repeats, no timeout)
+    if iter.windows(2).any(|w| w[0].0 >= w[1].0) {
+        report(st, json!({"key": format!("cmap4-iter-not-ascending:{:016x}", fnv(&bytes))}));
+    }
     st.evaluations += cps.len() as u64 + 1;
     st.count(if wellformed { "read4.wellformed" } else { "read4.malformed" });
     st.nontrivial(&format!("r4 {:?}", t));
@@ -852,7 +864,84 @@ fn gen_var14(rng: &mut Rng, st: &mut Stats, cw: &mut CaseWriter) {
     let lk = clist(lookups.iter(), |(c, s, r)| {
         format!("({}, {}, {})", c, s, copt(r.map(|v| copt(v.map(|g| g.to_string())))))
     });
-    cw.push(format!("CVar14 {} {}", sels_term, lk));
+    cw.push(format!("CVar14wf {} {}", sels_term, lk));
+}
+
+/// the format-14 subtable of a real font: decoded to the model's table, every encoded point and its neighbours queried
+fn real_var14(font_bytes: &[u8], name: &str, st: &mut Stats, cw: &mut CaseWriter) {
+    let font = FontRef::new(font_bytes).unwrap();
+    let cmap = font.cmap().unwrap();
+    let data = cmap.offset_data();
+    let Some(r14) = cmap.encoding_records().iter().find_map(|r| match r.subtable(data) {
+        Ok(rcmap::CmapSubtable::Format14(t)) => Some(t),
+        _ => None,
+    }) else {
+        report(st, json!({"key": format!("real-var14-missing:{}", name)}));
+        return;
+    };
+    let charmap = font.charmap();
+    let mut table: Vec<(u32, Option<Vec<(u32, u8)>>, Option<Vec<(u32, u16)>>)> = vec![];
+    for rec in r14.var_selector() {
+        let d = rec.default_uvs(r14.offset_data()).and_then(|r| r.ok()).map(|d| {
+            d.ranges().iter().map(|r| (r.start_unicode_value().to_u32(), r.additional_count())).collect::<Vec<_>>()
+        });
+        let n = rec.non_default_uvs(r14.offset_data()).and_then(|r| r.ok()).map(|n| {
+            n.uvs_mapping().iter().map(|m| (m.unicode_value().to_u32(), m.glyph_id())).collect::<Vec<_>>()
+        });
+        table.push((rec.var_selector().to_u32(), d, n));
+    }
+    let mut qs: BTreeSet<(u32, u32)> = BTreeSet::new();
+    for (s, d, n) in &table {
+        for sel in [s.saturating_sub(1), *s, s + 1] {
+            for (a, add) in d.iter().flatten() {
+                for c in [a.saturating_sub(1), *a, a + *add as u32, a + *add as u32 + 1, a + *add as u32 + 2] {
+                    qs.insert((c, sel));
+                }
+            }
+            for (c, _) in n.iter().flatten() {
+                for x in [c.saturating_sub(1), *c, c + 1] {
+                    qs.insert((x, sel));
+                }
+            }
+        }
+    }
+    let expect = |c: u32, s: u32| -> Option<Option<u32>> {
+        let (_, d, n) = table.iter().find(|t| t.0 == s)?;
+        if d.iter().flatten().any(|(a, add)| *a <= c && c <= a + *add as u32) {
+            return Some(None);
+        }
+        n.iter().flatten().find(|(x, _)| *x == c).map(|(_, g)| Some(*g as u32))
+    };
+    let conv = |r: Option<rcmap::MapVariant>| -> Option<Option<u32>> {
+        r.map(|v| match v {
+            rcmap::MapVariant::UseDefault => None,
+            rcmap::MapVariant::Variant(g) => Some(g.to_u32()),
+        })
+    };
+    let mut lookups = vec![];
+    for (c, s) in &qs {
+        st.evaluations += 1;
+        let got = catch(|| r14.map_variant(*c, *s)).map(conv);
+        let got2 = catch(|| charmap.map_variant(*c, *s)).map(conv);
+        let exp = expect(*c, *s);
+        if got != Ok(exp) || got2 != Ok(exp) {
+            report(st, json!({"key": format!("cmap14-map_variant:{}", name), "c": c, "selector": s,
+                              "expected": format!("{:?}", exp), "cmap14": format!("{:?}", got), "charmap": format!("{:?}", got2)}));
+        }
+        lookups.push((*c, *s, got.unwrap_or(None)));
+    }
+    st.count("var14.real_font_tables");
+    st.add("var14.real_font_queries", qs.len() as u64);
+    let sels_term = clist(table.iter(), |(s, d, n)| {
+        format!(
+            "({}, {}, {})",
+            s,
+            copt(d.as_ref().map(|v| clist(v.iter(), |(a, b)| format!("({}, {})", a, b)))),
+            copt(n.as_ref().map(|v| clist(v.iter(), |(a, b)| format!("({}, {})", a, b))))
+        )
+    });
+    let lk = clist(lookups.iter(), |(c, s, r)| format!("({}, {}, {})", c, s, copt(r.map(|v| copt(v.map(|g| g.to_string()))))));
+    cw.push(format!("CVar14wf {} {}", sels_term, lk));
 }
 
 fn main() {
@@ -1100,6 +1189,7 @@ fn main() {
     for _ in 0..n_read / 2 {
         gen_var14(&mut rng, &mut st, &mut cw);
     }
+    real_var14(font_test_data::CMAP14_FONT1, "cmap14_font1", &mut st, &mut cw);
 
     let shards = cw.finish();
     st.v.insert("shards".into(), shards.into());
